@@ -12,11 +12,21 @@ CHECKS = {
             "Every message validator is evaluated on the complete product of per-field boundary sets (every single bit, every alignment/limit neighbour, 0/1/max; 4.7e7 tuples quick, 1.3e10 thorough) built from raw bytes, and on every request code in [0,4096] and +-64 around each power of two, and compared with an independently written predicate. Validators are pure functions of a few fields whose decision boundaries lie on those values, so the boundary product decides them up to values strictly between lattice points.",
             "Trusted: the reference predicates in vmc/src/model/validators.rs transcribe the statement's rules; padding bytes the specification leaves open are don't-care. Values strictly inside lattice intervals are not enumerated.",
             "DESIGN.md 4/C20"),
+    "C01": ("exploration", "lattice",
+            "exhaustive enumeration of every message x argument lattice x flag/negotiation configuration, byte-for-byte comparison with an independent specification codec over a socketpair",
+            "For all four channels every message the crate emits (frontend requests, backend replies/acks, backend-initiated requests and their acks, GPU requests) is produced for the whole argument lattice (pairwise-distinct byte-asymmetric patterns, per-field boundary sweeps, 1..=32 regions, config lengths 1..=4084, queue indexes 0..=255, GPU payloads 0..=4096) under REPLY_ACK negotiated/not x NEED_REPLY on/off, captured by a raw peer and compared byte for byte and descriptor for descriptor (identity, attached to byte 0 only) with an independently written codec; conversely each spec-encoded message is fed to the crate and the decoded values compared. Encoding is a pure function of the arguments and the configuration, so exhaustive lattice enumeration is the appropriate level.",
+            "Trusted: vmc/src/spec.rs as the specification (written offline from the vhost-user / vhost-user-gpu documents; SET_LOG_BASE reply payload, GET_SHMEM_CONFIG and SHMEM_MAP/UNMAP layouts as upstream defines them). Padding bytes the specification leaves open are don't-care. Values strictly between lattice points are not enumerated.",
+            "DESIGN.md 4/C01"),
     "C03": ("model_checking", "lattice",
             "exhaustive enumeration of (operation x scripted handler outcome x negotiation x flags x position) on the real Frontend<->BackendReqHandler pair in single-threaded coop mode; 'would block forever' decided by the interposer",
             "Every reply-bearing and every acknowledged frontend operation is executed against the real backend request server for every scripted handler outcome (success values incl. 0/max patterns, with/without file, Err, wrong-length config data), with REPLY_ACK negotiated or not, NEED_REPLY on/off, as first call and after a successful call. Both endpoints run on one thread; when the frontend would wait on an empty socket the interposer runs the server, and if the socket is still empty the call is decided to wait forever - no timeout is involved. The returned value is compared with the scripted one.",
             "Trusted: the server-side driver behaves like the daemon thread (serves while Ok, shuts the socket down on Err). Values outside the scripted variants are not covered.",
             "DESIGN.md 4/C03"),
+    "C04": ("model_checking", "xstate",
+            "explicit-state BFS to closure over request histories on the real BackendReqHandler, reference protocol model co-executed on every transition, plus a no-dedup differential run",
+            "Breadth-first search over histories of the full request alphabet (a well-formed instance of every code 1..=44 and feature-setting variants x NEED_REPLY x scripted handler success/failure, ~430 operations) against the real backend request server driven by a raw peer with the independent codec. After every request: bytes left unread = 0, handler invoked exactly when prescribed, and the bytes written equal the model's prescription (one reply with same code/REPLY/version 1/size=payload, one u64 ack that is zero iff the handler succeeded, or nothing). States are deduplicated on the negotiation state the server's behaviour can depend on; the search runs until no new state appears (closure, reached at depth 3-4) and is then repeated without deduplication to a smaller depth as a guard against a too-coarse key.",
+            "Trusted: the reference model's weak readings documented in DESIGN 4/C04; the dedup key is model state only (no accessor hook into the server), guarded by the no-dedup rerun. 'Random beyond the bound' is not claimed.",
+            "DESIGN.md 4/C04"),
     "C08": ("fault_enumeration", "lattice",
             "exhaustive enumeration of stream segmentations (2-/3-splits, byte-by-byte), truncation offsets and short-write/EAGAIN patterns on the real endpoints via libc interposition",
             "For every message type of every receiver (backend request server, frontend reply paths, frontend request server, Backend/GPU proxy ack paths) every 2-split position (all positions for short messages, boundary neighbourhoods + stride for long ones), byte-by-byte delivery and 3-splits are delivered by a raw peer that writes the next segment only when the receiver starts waiting; every cut offset followed by close; for every sender every single short-write position, pairs and EAGAIN/EINTR patterns injected at sendmsg. Oracle: same handler log, reply bytes and result as unsplit delivery; bytes exactly once and in order with descriptors only at offset 0; truncation = error, clean Disconnected only at offset 0, nothing dispatched, no indefinite wait.",
